@@ -8,7 +8,7 @@ from ..cfg import NORMAL, Node, handler_classes
 from ..core import Ctx
 from ..flow import ALL, find_path, names_in
 from ..model import AnalysisError, FunctionInfo, dotted, norm_text
-from .common import (facts_at, walk_all, str_consts, owner_tops, nonnull_inline_return_edges, cleanup_in_reraising_handler, edge_target, guarded_names, handler_exits, handler_key, handler_nodes, in_handler, kwarg,
+from .common import (facts_at, judged_in_callers, walk_all, str_consts, owner_tops, nonnull_inline_return_edges, cleanup_in_reraising_handler, edge_target, guarded_names, handler_exits, handler_key, handler_nodes, in_handler, kwarg,
                      path_arg, reachable_from)
 
 EXPLANATION = (
@@ -47,6 +47,13 @@ SWALLOW_OK: Dict[Tuple[str, str], str] = {
         "commonpath ValueError (different drives) means 'outside': the code raises right below",
     ("datashard.data_operations.DataFileManager._compute_column_bounds", "pa.ArrowNotImplementedError"):
         "write path only: no bounds for that column (never prunes)",
+    # storage layer (consulted by the collector's census C07.R8, whose call tree reaches the backends)
+    ("datashard.s3_consistency.S3ConsistencyHandler.retry_with_backoff", "self.retryable_exceptions"):
+        "the retry loop: a retryable error is retried and re-raised once the budget is exhausted (C20.R3)",
+    ("datashard.storage_backend.LocalStorageBackend._resolve_path", "ValueError"):
+        "commonpath ValueError (different drives) means 'outside': the code raises right below (C17)",
+    ("datashard.storage_backend.S3StorageBackend.exists", "ClientError"):
+        "404 is the answer 'absent'; every other code re-raises (C20.R2)",
 }
 
 
@@ -58,13 +65,13 @@ def check(ctx: Ctx) -> None:
     r5(ctx)
 
 
-def read_path_functions(ctx: Ctx) -> List[FunctionInfo]:
+def read_path_functions(ctx: Ctx, roots: Optional[List[FunctionInfo]] = None, modules: Tuple[str, ...] = READ_MODULES) -> List[FunctionInfo]:
     table = ctx.prog.cls("transaction.Table")
     seen: Dict[str, FunctionInfo] = {}
-    for api in READ_APIS:
-        if api not in table.methods:
+    for api in (READ_APIS if roots is None else roots):
+        if roots is None and api not in table.methods:
             raise AnalysisError(f"read API vanished: Table.{api}")
-        r = table.methods[api]
+        r = table.methods[api] if roots is None else api  # type: ignore[index,assignment]
         seen[r.qname] = r
         for f, n, _c in ctx.eff.transitive_calls(r):
             for t in ctx.eff.callees(f, n):
@@ -74,7 +81,7 @@ def read_path_functions(ctx: Ctx) -> List[FunctionInfo]:
         top = f
         while top.parent is not None:
             top = top.parent
-        if top.module.short in READ_MODULES:
+        if top.module.short in modules:
             out.append(f)
     return sorted(out, key=lambda x: x.qname)
 
@@ -91,14 +98,14 @@ def allow_key(ctx: Ctx, f: FunctionInfo, hn: Node) -> Tuple[str, str]:
     return (ctx.prog.anchor(top), cs)
 
 
-def r1(ctx: Ctx) -> None:
-    ctx.rule("C14.R1", "no swallowing on the read path: every handler reachable from a read API re-raises / converts, or is in "
-             "the reasoned allow-list", 8)
-    fns = read_path_functions(ctx)
-    if len(fns) < 20:
-        raise AnalysisError(f"read path has only {len(fns)} functions - call graph broken")
+def r1(ctx: Ctx, rid: str = "C14.R1", roots: Optional[List[FunctionInfo]] = None, modules: Tuple[str, ...] = READ_MODULES,
+       what: str = "read path: every handler reachable from a read API", floor: int = 8, min_fns: int = 20) -> None:
+    ctx.rule(rid, f"no swallowing on the {what} re-raises / converts, or is in the reasoned allow-list", floor)
+    fns = read_path_functions(ctx, roots, modules)
+    if len(fns) < min_fns:
+        raise AnalysisError(f"{what.split(':')[0]} has only {len(fns)} functions - call graph broken")
     for f in fns:
-        if ctx.prog.is_transparent(f):
+        if judged_in_callers(ctx, f):
             continue  # a helper introduced later: its handlers are judged where it is inlined (in its callers)
         for hn in handler_nodes(ctx, f):
             if hn.id not in ctx.cfg(f).reachable():
@@ -106,7 +113,7 @@ def r1(ctx: Ctx) -> None:
             ex = handler_exits(ctx, f, hn)
             swallow = bool(ex["fallthrough"] or ex["return"] or ex["loop"])
             if not swallow:
-                ctx.ob("C14.R1", f, handler_key(ctx, f, hn), hn, True, "re-raises / converts on every path", text="")
+                ctx.ob(rid, f, handler_key(ctx, f, hn), hn, True, "re-raises / converts on every path", text="")
                 continue
             k = allow_key(ctx, f, hn)
             reason = SWALLOW_OK.get(k)
@@ -115,7 +122,7 @@ def r1(ctx: Ctx) -> None:
                     reason = reason or SWALLOW_OK.get((ctx.prog.anchor(o), k[1]))
             if reason is None and cleanup_in_reraising_handler(ctx, f, hn):
                 reason = "best-effort cleanup nested in a handler that re-raises the original error on every path"
-            ctx.ob("C14.R1", f, handler_key(ctx, f, hn), hn, reason is not None,
+            ctx.ob(rid, f, handler_key(ctx, f, hn), hn, reason is not None,
                    (f"allow-listed: {reason}" if reason else
                     f"a handler on the read path can complete normally: a storage/parse failure would yield a partial or "
                     f"empty answer instead of raising; key={k}"), text="")
